@@ -119,7 +119,7 @@ def esc_answer(b):
     """bytes/str of an answer -> the scenario-line form (mirror of vbEscAnswer in the Go driver)"""
     if isinstance(b, str):
         b = b.encode("latin-1")
-    plain = not b.startswith(b"~") and all(0x20 < c < 0x7f and c not in b",:@=" for c in b)
+    plain = not b.startswith(b"~") and all(0x20 < c < 0x7f and c not in b",:@" for c in b)
     return b.decode("latin-1") if plain else "~" + b.hex()
 
 
